@@ -1,13 +1,13 @@
 SPECIFICATION Spec
-CONSTANTS Times <- McTimesT
- RootTimes <- McRootT
- ExpChoices <- McExpT
- Menu <- McMenu
- QMenu <- McQMenu
+CONSTANTS Times <- McTimesC
+ RootTimes <- McRootQ
+ ExpChoices <- McExpQ
+ Menu <- McMenuC
+ QMenu <- McQMenuC
  MaxBlocks = 3
  HashCoversSig = FALSE
- Encs = {"c"}
- CarrierKeyed = FALSE
+ Encs = {"c", "h"}
+ CarrierKeyed = TRUE
  PruneLife = 1800
  ReloadLife = 1800
 INVARIANTS TypeOK GuardSound NoDangling LiveCached WindowSufficient TracerComplete CarryEquiv
